@@ -3,6 +3,8 @@
   Property theorems only.
 -/
 import SplVerif.Model.Features
+import SplVerif.Lemmas.Extents
+import SplVerif.Lemmas.SemOrder
 
 namespace Spl.C15
 open Spl.Feat
@@ -223,6 +225,272 @@ theorem semantic_tokens_count (d : AnalyzedSource) (sts : List SemTok) (h : sema
     | nil => rfl
     | cons a l ih => simp [decode, ih]
   simpa [hl] using this
+
+/-! ### valid programs: the classified tokens come in document order -/
+
+theorem classified_sublist (cl : Nat → Token → Option (Nat × Nat)) : ∀ (toks : List Token) (i : Nat),
+    (classified cl toks i).Sublist toks
+  | [], _ => by simp [classified]
+  | t :: rest, i => by
+    simp only [classified]
+    cases cl i t with
+    | none => exact (classified_sublist cl rest (i + 1)).cons t
+    | some _ => exact (classified_sublist cl rest (i + 1)).cons_cons t
+
+/-- where the declarations end (absolute token index); `p` without declarations -/
+def endOf (p : Nat) (ds : List (Ref GlobalDecl)) : Nat :=
+  match ds.getLast? with
+  | some gd => gd.offset + gd.val.info.range.hi
+  | none => p
+
+/-- the token slice of a declaration that lies at `p … k` -/
+theorem declTokens_tiled (d : AnalyzedSource) (p k : Nat) (gd : Ref GlobalDecl) (hoff : gd.offset = p)
+    (hr : gd.val.info.range = ⟨0, k + 1 - p⟩) (hp : p ≤ k + 1) (hk : k < d.tokens.length) :
+    declTokens d gd = some ((d.tokens.take (k + 1)).drop p) := by
+  have h1 : 0 + p ≤ d.tokens.toArray.size := by simp; omega
+  have h2 : (0 : Nat) ≤ k + 1 - p ∧ 0 + p + (k + 1 - p) ≤ d.tokens.toArray.size := by simp; omega
+  simp only [declTokens, allTokens, Slice.full, Slice.from, hoff, h1, if_true, Slice.sub, hr, h2, and_self,
+    Option.map_some, Slice.toList, Array.toList_extract, List.extract_eq_take_drop, Option.some.injEq]
+  rw [List.drop_take]
+  congr 2 <;> omega
+
+open Spl.ParseConform in
+/-- on declarations that tile the token sequence, the classified tokens of the declarations followed
+    by any selection of the tokens behind the last declaration are a sub-sequence of the tokens -/
+theorem tiling_sublist (d : AnalyzedSource) (X : List Token → List Token) (hX : ∀ l, (X l).Sublist l) :
+    ∀ (p : Nat) (ds : List (Ref GlobalDecl)) (es : List (Nat × Nat)), Tiling d.tokens.toArray p ds es →
+    (classifiedAll d ds ++ X (d.tokens.drop (endOf p ds))).Sublist (d.tokens.drop p) := by
+  intro p ds es h
+  induction h with
+  | nil p => simpa [classifiedAll, endOf] using hX _
+  | type p i k td rest es hN _ hik hk hr _ ih =>
+    obtain ⟨tk, htk, _⟩ := hk
+    have hksz : k < d.tokens.length := by
+      have := (Array.getElem?_eq_some_iff.mp htk).1
+      simpa using this
+    have hpk : p ≤ k + 1 := by have := hN.le; omega
+    have hd := declTokens_tiled d p k ⟨.type td, p⟩ rfl (by simpa [GlobalDecl.info] using hr) hpk hksz
+    have hend : endOf p (⟨.type td, p⟩ :: rest) = endOf (k + 1) rest := by
+      cases rest with
+      | nil => simp [endOf, GlobalDecl.info, hr]; omega
+      | cons r rs =>
+        simp only [endOf, List.getLast?_cons_cons]
+        rw [List.getLast?_eq_some_getLast (List.cons_ne_nil r rs)]
+    rw [hend]
+    simp only [classifiedAll, hd, List.append_assoc]
+    have hsplit : d.tokens.drop p = (d.tokens.take (k + 1)).drop p ++ d.tokens.drop (k + 1) := by
+      conv => lhs; rw [← List.take_append_drop (k + 1) d.tokens]
+      rw [List.drop_append_of_le_length (by simp; omega)]
+    rw [hsplit]
+    exact List.Sublist.append (classified_sublist _ _ _) ih
+  | proc p i k pd rest es hN _ hik hk hr _ ih =>
+    obtain ⟨tk, htk, _⟩ := hk
+    have hksz : k < d.tokens.length := by
+      have := (Array.getElem?_eq_some_iff.mp htk).1
+      simpa using this
+    have hpk : p ≤ k + 1 := by have := hN.le; omega
+    have hd := declTokens_tiled d p k ⟨.proc pd, p⟩ rfl (by simpa [GlobalDecl.info] using hr) hpk hksz
+    have hend : endOf p (⟨.proc pd, p⟩ :: rest) = endOf (k + 1) rest := by
+      cases rest with
+      | nil => simp [endOf, GlobalDecl.info, hr]; omega
+      | cons r rs =>
+        simp only [endOf, List.getLast?_cons_cons]
+        rw [List.getLast?_eq_some_getLast (List.cons_ne_nil r rs)]
+    rw [hend]
+    simp only [classifiedAll, hd, List.append_assoc]
+    have hsplit : d.tokens.drop p = (d.tokens.take (k + 1)).drop p ++ d.tokens.drop (k + 1) := by
+      conv => lhs; rw [← List.take_append_drop (k + 1) d.tokens]
+      rw [List.drop_append_of_le_length (by simp; omega)]
+    rw [hsplit]
+    exact List.Sublist.append (classified_sublist _ _ _) ih
+
+/-- **In a valid program every classified token is a lexical token of the text, and they come in
+    document order**: the list the handler encodes is a sub-sequence of the document's tokens —
+    nothing is visited twice or out of order, whatever the layout and wherever comments stand. -/
+theorem classified_in_order (d : AnalyzedSource) (hp : Grammar.parse d.tokens = some d.ast) :
+    (classifiedDoc d).Sublist d.tokens := by
+  obtain ⟨es, ht⟩ := ParseConform.parse_tiling d.tokens d.ast hp
+  have := tiling_sublist d (fun l => classified restClassify l 0) (fun l => classified_sublist _ l 0) 0 _ es ht
+  have e : restStart d = endOf 0 d.ast.decls := by
+    unfold restStart endOf
+    cases d.ast.decls.getLast? <;> rfl
+  simp only [classifiedDoc, e]
+  simpa using this
+
+/-- **The decoded token stream of a valid program is strictly increasing in document order**
+    (`SemOrder.lexLt`: an earlier line, or the same line and a smaller column): consecutive — and
+    hence any two — decoded tokens start at different places, the later one behind the earlier
+    one; by `classified_in_order` each of them is the start of a lexical token of its own. -/
+theorem semantic_tokens_increasing (d : AnalyzedSource) (hinv : lex d.text = .ok d.tokens)
+    (hp : Grammar.parse d.tokens = some d.ast) (sts : List SemTok) (h : semanticTokens d = .ok sts) :
+    (decode ⟨0, 0⟩ sts).Pairwise SemOrder.lexLt := by
+  rw [semantic_tokens_decode d sts h, List.pairwise_map]
+  have hsub := classified_in_order d hp
+  have hst := (SemOrder.tokens_strict d.text d.tokens hinv).sublist hsub
+  refine List.Pairwise.imp_of_mem ?_ hst
+  intro x y hx hy hlt
+  exact SemOrder.starts_strict d.text d.tokens hinv x y (hsub.subset hx) (hsub.subset hy) hlt
+
+/-! ### valid programs: the handler answers -/
+
+open SemOrder in
+/-- `prev` lies at or before the reported start of every token of `l` -/
+def Before (text : List Char) (prev : Pos) (l : List Token) : Prop :=
+  ∀ t ∈ l, lexLe prev (asPosition t.range.lo text)
+
+open SemOrder in
+theorem createSemTok_ok (t : Token) (prev : Pos) (text : List Char) (ty m : Nat)
+    (hs : ∃ s, sliceText text t.range = some s) (hle : lexLe prev (asPosition t.range.lo text)) :
+    ∃ st, createSemTok t prev text ty m = .ok st := by
+  obtain ⟨s, hs⟩ := hs
+  unfold createSemTok
+  simp only [hs]
+  have h1 : ¬ (asPosition t.range.lo text).line < prev.line := by
+    rcases hle with (h | ⟨h, _⟩) | h
+    · omega
+    · omega
+    · rw [h]; omega
+  have h2 : ((asPosition t.range.lo text).line == prev.line && decide ((asPosition t.range.lo text).col < prev.col)) = false := by
+    rcases hle with (h | ⟨h, h'⟩) | h
+    · have : ((asPosition t.range.lo text).line == prev.line) = false := by simp; omega
+      simp [this]
+    · have : decide ((asPosition t.range.lo text).col < prev.col) = false := by simp; omega
+      simp [this]
+    · rw [← h]; simp
+  simp only [h1, if_false, h2, Bool.false_eq_true]
+  exact ⟨_, rfl⟩
+
+open SemOrder in
+/-- the fold over one run of tokens answers when the previous position lies before all of them,
+    and the position it hands on lies before whatever comes behind the run -/
+theorem collectToks_total (text : List Char) (toks : List Token) (hinv : lex text = .ok toks)
+    (cl : Nat → Token → Option (Nat × Nat)) :
+    ∀ (l : List Token) (i : Nat) (prev : Pos), (∀ t ∈ l, t ∈ toks) →
+      l.Pairwise (fun x y => x.range.lo < y.range.lo) → Before text prev l →
+      ∃ sts p, collectToks text cl l i prev = .ok (sts, p) ∧
+        ∀ L', (∀ t ∈ L', t ∈ toks) → (∀ x ∈ l, ∀ y ∈ L', x.range.lo < y.range.lo) → Before text prev L' →
+          Before text p L'
+  | [], i, prev, _, _, _ => ⟨[], prev, rfl, fun _ _ _ h => h⟩
+  | t :: rest, i, prev, hmem, hpw, hbef => by
+    rw [List.pairwise_cons] at hpw
+    have hmem' : ∀ x ∈ rest, x ∈ toks := fun x hx => hmem x (List.mem_cons_of_mem _ hx)
+    simp only [collectToks]
+    cases hc : cl i t with
+    | none =>
+      obtain ⟨sts, p, h1, h2⟩ := collectToks_total text toks hinv cl rest (i + 1) prev hmem' hpw.2
+        (fun x hx => hbef x (List.mem_cons_of_mem _ hx))
+      refine ⟨sts, p, h1, ?_⟩
+      intro L' hL hord hb
+      exact h2 L' hL (fun x hx y hy => hord x (List.mem_cons_of_mem _ hx) y hy) hb
+    | some tm =>
+      obtain ⟨ty, m⟩ := tm
+      have ht : t ∈ toks := hmem t (by simp)
+      obtain ⟨st, hst⟩ := createSemTok_ok t prev text ty m (sliceText_token text toks hinv t ht) (hbef t (by simp))
+      have hb' : Before text (asPosition t.range.lo text) rest := by
+        intro y hy
+        exact Or.inl (starts_strict text toks hinv t y ht (hmem' y hy) (hpw.1 y hy))
+      obtain ⟨sts, p, h1, h2⟩ := collectToks_total text toks hinv cl rest (i + 1) _ hmem' hpw.2 hb'
+      refine ⟨st :: sts, p, by simp only [hst, h1], ?_⟩
+      intro L' hL hord _
+      refine h2 L' hL (fun x hx y hy => hord x (List.mem_cons_of_mem _ hx) y hy) ?_
+      intro y hy
+      exact Or.inl (starts_strict text toks hinv t y ht (hL y hy) (hord t (by simp) y hy))
+
+open Spl.ParseConform SemOrder in
+/-- the handler's loop over declarations that tile the token sequence answers -/
+theorem from_total (d : AnalyzedSource) (hinv : lex d.text = .ok d.tokens) :
+    ∀ (p : Nat) (ds : List (Ref GlobalDecl)) (es : List (Nat × Nat)), Tiling d.tokens.toArray p ds es →
+    ∀ prev, Before d.text prev (d.tokens.drop p) →
+    ∃ sts p', semanticTokensFrom d ds prev = .ok (sts, p') ∧ Before d.text p' (d.tokens.drop (endOf p ds)) := by
+  intro p ds es h
+  have hstrict := tokens_strict d.text d.tokens hinv
+  -- one declaration at `p … k`
+  have step : ∀ (p k : Nat) (gd : Ref GlobalDecl) (rest : List (Ref GlobalDecl)) (prev : Pos),
+      declTokens d gd = some ((d.tokens.take (k + 1)).drop p) → p ≤ k + 1 → k < d.tokens.length →
+      Before d.text prev (d.tokens.drop p) →
+      (∀ prev', Before d.text prev' (d.tokens.drop (k + 1)) →
+        ∃ sts p', semanticTokensFrom d rest prev' = .ok (sts, p') ∧ Before d.text p' (d.tokens.drop (endOf (k + 1) rest))) →
+      ∃ sts p', semanticTokensFrom d (gd :: rest) prev = .ok (sts, p') ∧
+        Before d.text p' (d.tokens.drop (endOf (k + 1) rest)) := by
+    intro p k gd rest prev hd hpk hksz hbef ih
+    have hsplit : d.tokens.drop p = (d.tokens.take (k + 1)).drop p ++ d.tokens.drop (k + 1) := by
+      conv => lhs; rw [← List.take_append_drop (k + 1) d.tokens]
+      rw [List.drop_append_of_le_length (by simp; omega)]
+    have hpw : (d.tokens.drop p).Pairwise (fun x y => x.range.lo < y.range.lo) :=
+      hstrict.sublist (List.drop_sublist _ _)
+    rw [hsplit, List.pairwise_append] at hpw
+    have hm1 : ∀ t ∈ (d.tokens.take (k + 1)).drop p, t ∈ d.tokens :=
+      fun t ht => List.mem_of_mem_take (List.mem_of_mem_drop ht)
+    have hm2 : ∀ t ∈ d.tokens.drop (k + 1), t ∈ d.tokens := fun t ht => List.mem_of_mem_drop ht
+    obtain ⟨s1, p1, c1, c2⟩ := collectToks_total d.text d.tokens hinv (semClassify d gd.val ((d.tokens.take (k + 1)).drop p))
+      ((d.tokens.take (k + 1)).drop p) 0 prev hm1 hpw.1
+      (fun t ht => hbef t (by rw [hsplit]; exact List.mem_append_left _ ht))
+    have hb1 := c2 (d.tokens.drop (k + 1)) hm2 hpw.2.2
+      (fun t ht => hbef t (by rw [hsplit]; exact List.mem_append_right _ ht))
+    obtain ⟨s2, p2, e1, e2⟩ := ih p1 hb1
+    exact ⟨s1 ++ s2, p2, by simp only [semanticTokensFrom, hd, c1, e1], e2⟩
+  induction h with
+  | nil p => intro prev hb; exact ⟨[], prev, rfl, by simpa [endOf] using hb⟩
+  | type p i k td rest es hN _ hik hk hr _ ih =>
+    intro prev hb
+    obtain ⟨tk, htk, _⟩ := hk
+    have hksz : k < d.tokens.length := by
+      have := (Array.getElem?_eq_some_iff.mp htk).1
+      simpa using this
+    have hpk : p ≤ k + 1 := by have := hN.le; omega
+    have hd := declTokens_tiled d p k ⟨.type td, p⟩ rfl (by simpa [GlobalDecl.info] using hr) hpk hksz
+    have hend : endOf p (⟨.type td, p⟩ :: rest) = endOf (k + 1) rest := by
+      cases rest with
+      | nil => simp [endOf, GlobalDecl.info, hr]; omega
+      | cons r rs =>
+        simp only [endOf, List.getLast?_cons_cons]
+        rw [List.getLast?_eq_some_getLast (List.cons_ne_nil r rs)]
+    rw [hend]
+    exact step p k _ rest prev hd hpk hksz hb ih
+  | proc p i k pd rest es hN _ hik hk hr _ ih =>
+    intro prev hb
+    obtain ⟨tk, htk, _⟩ := hk
+    have hksz : k < d.tokens.length := by
+      have := (Array.getElem?_eq_some_iff.mp htk).1
+      simpa using this
+    have hpk : p ≤ k + 1 := by have := hN.le; omega
+    have hd := declTokens_tiled d p k ⟨.proc pd, p⟩ rfl (by simpa [GlobalDecl.info] using hr) hpk hksz
+    have hend : endOf p (⟨.proc pd, p⟩ :: rest) = endOf (k + 1) rest := by
+      cases rest with
+      | nil => simp [endOf, GlobalDecl.info, hr]; omega
+      | cons r rs =>
+        simp only [endOf, List.getLast?_cons_cons]
+        rw [List.getLast?_eq_some_getLast (List.cons_ne_nil r rs)]
+    rw [hend]
+    exact step p k _ rest prev hd hpk hksz hb ih
+
+open SemOrder in
+/-- **On a valid program the handler answers**: no slice is out of range and no delta would be
+    negative (the implementation's debug build panics on a negative delta, its release build wraps
+    around) — for every text the lexer tokenises and the grammar specification derives the tree of. -/
+theorem semantic_tokens_total (d : AnalyzedSource) (hinv : lex d.text = .ok d.tokens)
+    (hp : Grammar.parse d.tokens = some d.ast) : ∃ sts, semanticTokens d = .ok sts := by
+  obtain ⟨es, ht⟩ := ParseConform.parse_tiling d.tokens d.ast hp
+  obtain ⟨s1, p1, h1, h2⟩ := from_total d hinv 0 _ es ht ⟨0, 0⟩ (fun t _ => lexLe_zero _)
+  have e : restStart d = endOf 0 d.ast.decls := by
+    unfold restStart endOf
+    cases d.ast.decls.getLast? <;> rfl
+  have hstrict := (tokens_strict d.text d.tokens hinv).sublist (List.drop_sublist (restStart d) d.tokens)
+  obtain ⟨s2, p2, c1, _⟩ := collectToks_total d.text d.tokens hinv (fun _ t => (mapTokenClass t).map (fun c => (c, 0)))
+    (d.tokens.drop (restStart d)) 0 p1 (fun t ht => List.mem_of_mem_drop ht) hstrict (by rw [e]; exact h2)
+  exact ⟨s1 ++ s2, by simp only [semanticTokens, h1, c1]⟩
+
+/-- Non-vacuity: a document with a comment in front of a procedure, a type declaration and a trailing
+    comment is derived by the grammar specification (so that, by C04.parse_conforms, its tree is that
+    derivation and the three theorems above apply); the handler answers with eleven tokens. -/
+example :
+    (match AnalyzedSource.new "// doc\nproc a(x: int) {\n  x := 1;\n}\ntype t = int; // end".toList with
+     | .ok d => (Grammar.parse d.tokens).isSome &&
+         (match semanticTokens d with
+          | .ok sts => sts.length == 11
+          | .error _ => false)
+     | .error _ => false) = true := by
+  decide +kernel
 
 /-- Non-vacuity: two identifiers on two lines are encoded as `(0,0)` and `(+1 line, column 0)`, and
     decoding gives the two positions back. -/
